@@ -117,6 +117,13 @@ func setupC04(x *Ctx) {
 		o.writeFailAt, _ = strconv.Atoi(variant[1:])
 		o.failOnce = true
 	}
+	if x.Feat(FeatMoreInputs) && (variant == "" || variant == "none") && x.Chance("c04-hello-matrix", 0.3) {
+		// one hello message drawn uniformly from all member combinations, delivered in a
+		// hello listen state (the cells the general generator reaches once in 1600 frames)
+		var cell string
+		o, cell = helloMatrixOpts(x)
+		x.SigAdd("hello-cell=" + cell)
+	}
 	s := newShip1(x, o)
 	x.SigAdd("v=" + variant)
 	x.OnFinal(func() {
